@@ -1,13 +1,24 @@
-"""C08 — decided by theorems in coq/Props/C08.v plus the sequential correspondence engine (scripts/seqprops.py)."""
-import seqprops
+"""C08 — decided by theorems in coq/Props/C08.v plus the sequential correspondence engine (scripts/seqprops.py) and
+concurrent histories in which a directory is removed and its number reused while another call re-takes its locks."""
+import json
+import seqprops, concengine
 TRUSTED = ['hand-written AM (Model/Afs.v), abs_disk/wf_disk (Model/Abs.v), agreement relations (Model/Agree.v): run extracted on the implementation disk and replies',
            'go-journal obj.Log.Load as the reader of the logical disk']
-ASSUMPTIONS = ['sequential client; checkpoints taken after each RPC has returned and the background shrinker is idle']
+ASSUMPTIONS = ['sequential client for the bulk; the concurrent part steers one interleaving family (a REMOVE between giving up and re-taking its locks while the directory is replaced)']
 
 
 def run(ctx, ps, gen_bad):
-    return seqprops.run(ctx, 'C08', ps, gen_bad)
+    fails, cov = seqprops.run(ctx, 'C08', ps, gen_bad)
+    # a dead directory handle used by a call that is between its two locking attempts: the directory is removed, a new one
+    # gets its number, the child is moved back in under the same name - the call must still fail as stale
+    f2, c2 = concengine.run(ctx, 'C08', [('staledir', 3, 6, 6 if ctx.quick else 150)], kinds={'lin', 'panic'})
+    fails += f2
+    cov['concurrent_histories_with_directory_number_reuse'] = c2['evaluations']
+    cov['evaluations'] += c2['evaluations']
+    return fails, cov
 
 
 def replay(ctx, path):
+    if 'shape' in json.load(open(path)):
+        return concengine.replay(ctx, path)
     return seqprops.replay(ctx, path)
